@@ -74,7 +74,15 @@ func (c *Counters) Sample(max int, s any) {
 }
 
 func (c *Counters) Violate(v Violation) {
-	if len(c.Violations) < 200 {
+	// at most 40 per class are kept: a frequent class (a known finding met in
+	// thousands of cases) must never crowd out a violation of another class
+	n := 0
+	for i := range c.Violations {
+		if c.Violations[i].Class == v.Class {
+			n++
+		}
+	}
+	if n < 40 {
 		c.Violations = append(c.Violations, v)
 	}
 	c.Add("violations_total", 1)
